@@ -4,6 +4,7 @@ package eng
 
 import (
 	"context"
+	"errors"
 	"fmt"
 	"reflect"
 	"sort"
@@ -53,6 +54,23 @@ func ToObject(v lang.Value) object.Object {
 // FromObject converts an engine object to a model value. A Go nil maps to
 // a value of kind -1 so that callers can flag it.
 func FromObject(o object.Object) (lang.Value, error) {
+	budget := MaxNodes
+	return fromObject(o, &budget)
+}
+
+// MaxNodes bounds the conversion of one engine value: the engine shares
+// structure between containers, so a small object graph can be an
+// astronomically large tree.
+const MaxNodes = 400000
+
+// ErrTooBig is returned by FromObject for values beyond MaxNodes.
+var ErrTooBig = fmt.Errorf("value too large to convert (more than %d nodes as a tree)", MaxNodes)
+
+func fromObject(o object.Object, budget *int) (lang.Value, error) {
+	*budget--
+	if *budget < 0 {
+		return lang.Null(), ErrTooBig
+	}
 	if o == nil || (reflect.ValueOf(o).Kind() == reflect.Ptr && reflect.ValueOf(o).IsNil()) {
 		return lang.Null(), fmt.Errorf("engine produced a nil object")
 	}
@@ -74,7 +92,7 @@ func FromObject(o object.Object) (lang.Value, error) {
 	case *object.Array:
 		out := lang.Array()
 		for _, e := range x.Elements {
-			v, err := FromObject(e)
+			v, err := fromObject(e, budget)
 			if err != nil {
 				return lang.Null(), err
 			}
@@ -87,11 +105,11 @@ func FromObject(o object.Object) (lang.Value, error) {
 		type kv struct{ k, v lang.Value }
 		var ents []kv
 		for _, p := range x.Pairs {
-			k, err := FromObject(p.Key)
+			k, err := fromObject(p.Key, budget)
 			if err != nil {
 				return lang.Null(), err
 			}
-			v, err := FromObject(p.Value)
+			v, err := fromObject(p.Value, budget)
 			if err != nil {
 				return lang.Null(), err
 			}
@@ -317,7 +335,9 @@ type Result struct {
 	Err        error
 	Panic      interface{} // a panic that escaped the API call
 	NilObject  bool
+	TooBig     bool // the result or a variable could not be converted (ErrTooBig)
 	Val        lang.Value
+	Raw        object.Object `json:"-"` // the object the engine returned
 	Trace      []string
 	Globals    map[string]lang.Value // after the run (hook); nil if unavailable
 	ScopeDepth int                   // open scopes after the run (hook)
@@ -338,6 +358,11 @@ func NewRunner(script string) *Runner {
 		parts := make([]string, len(args))
 		for i, a := range args {
 			parts[i] = string(a.Type()) + ":" + a.Inspect()
+			if a.Type() == object.ARRAY || a.Type() == object.HASH {
+				if v, err := FromObject(a); err == nil {
+					parts[i] += "~" + v.Sig()
+				}
+			}
 		}
 		r.Trace = append(r.Trace, "trace("+strings.Join(parts, ",")+")")
 		return &object.Void{}
@@ -357,7 +382,7 @@ func ModelHost(m *lang.Machine) {
 	m.Host["trace"] = func(m *lang.Machine, args []lang.Value) (lang.Value, error) {
 		parts := make([]string, len(args))
 		for i, a := range args {
-			parts[i] = a.Type() + ":" + a.Inspect()
+			parts[i] = a.Describe()
 		}
 		m.Trace = append(m.Trace, "trace("+strings.Join(parts, ",")+")")
 		return lang.Void(), nil
@@ -396,7 +421,14 @@ func (r *Runner) Execute(obj interface{}) (res Result) {
 		res.Trace = r.Trace
 		func() {
 			defer func() { _ = recover() }()
-			res.Globals, _ = r.Globals()
+			var gerr error
+			res.Globals, gerr = r.Globals()
+			if gerr != nil {
+				res.Globals = nil
+				if errors.Is(gerr, ErrTooBig) {
+					res.TooBig = true
+				}
+			}
 			res.ScopeDepth = r.E.VerifScopeDepth()
 			res.StackDepth = r.E.VerifStackDepth()
 		}()
@@ -407,12 +439,17 @@ func (r *Runner) Execute(obj interface{}) (res Result) {
 		return
 	}
 	v, cerr := FromObject(out)
+	if cerr == ErrTooBig {
+		res.TooBig = true
+		return
+	}
 	if cerr != nil {
 		res.NilObject = true
 		res.Err = cerr
 		return
 	}
 	res.Val = v
+	res.Raw = out
 	return
 }
 
@@ -422,7 +459,7 @@ func (r *Runner) Globals() (map[string]lang.Value, error) {
 	for k, o := range r.E.VerifGlobals() {
 		v, err := FromObject(o)
 		if err != nil {
-			return nil, fmt.Errorf("global %s: %v", k, err)
+			return nil, fmt.Errorf("global %s: %w", k, err)
 		}
 		out[k] = v
 	}
